@@ -98,19 +98,21 @@ def gen_scenario(rng, profile: dict) -> dict:
         script.append({"c": "submit"})
         submitted.append(i)
         r = rng.random()
-        if profile.get("cancel", True) and r < 0.30 and submitted:
+        pc = profile.get("cancel_p", 0.30) if profile.get("cancel", True) else 0.0
+        if r < pc and submitted:
             tgt = rng.choice(submitted)
             if rng.random() < 0.5 and calls[submitted[0]].get("gate") is not None:
                 script.append({"c": "wait_enter", "i": submitted[0]})
             script.append({"c": "cancel", "i": tgt})
-        elif r < 0.40:
+            if rng.random() < 0.25:
+                script.append({"c": "cancel", "i": rng.choice(submitted)})
+        elif r < pc + 0.10:
             script.append({"c": "sleep", "ms": rng.choice([1, 5, 20])})
-        elif r < 0.50 and submitted:
+        elif r < pc + 0.20 and submitted:
             tgt = rng.choice(submitted)
             release_all()
-            if not profile.get("fail") or True:
-                script.append({"c": "await", "i": tgt})
-        elif r < 0.58 and profile.get("mid_shutdown", True):
+            script.append({"c": "await", "i": tgt})
+        elif r < pc + 0.20 + profile.get("mid_shutdown_p", 0.08) and profile.get("mid_shutdown", True):
             w = rng.random() < 0.5
             if w:
                 release_all()
@@ -313,6 +315,21 @@ def judge(model, scen: dict, out: dict) -> dict:
             if st:
                 intervals.append((i, pid, n, st[-1][2], t))
     info["executed"] = sorted(enters)
+    # dependency order (C03): every input's function body ended before the dependent's began
+    for (i, pid, n, a, b) in intervals:
+        for j in deps_of(scen["calls"][i]):
+            js = [x for x in intervals if x[0] == j]
+            if not js:
+                oracles.append({"oracle": "dep_order", "i": i, "dep": j, "detail": "dependent executed but input never executed"})
+            elif max(x[4] for x in js) > a:
+                oracles.append({"oracle": "dep_order", "i": i, "dep": j, "detail": "input still executing when dependent started"})
+    # submit after a completed shutdown must raise (C05)
+    closed = False
+    for cmd in obs.get("cmds", []):
+        if cmd["c"] == "shutdown" and cmd.get("raised") is None and "raised" in cmd:
+            closed = True
+        elif cmd["c"] == "submit" and closed and cmd.get("ok"):
+            oracles.append({"oracle": "accepted_after_shutdown"})
     cancel_ok = rep["state"].get("cancelOk", []) if rep.get("state") else []
     for i in cancel_ok:
         if i in enters:
